@@ -32,8 +32,12 @@ impl ProgramArchive {
     ) -> Result<ProgramArchive, (FileLibrary, Vec<Report>)> {
         let mut merger = Merger::new();
         let mut reports = vec![];
-        for (file_id, definitions) in program_contents {
-            if let Err(mut errs) = merger.add_definitions(*file_id, definitions) {
+        // Visit the files in the order they were parsed, so that the reports do not
+        // depend on the iteration order of the map.
+        let mut file_ids = program_contents.keys().collect::<Vec<_>>();
+        file_ids.sort();
+        for file_id in file_ids {
+            if let Err(mut errs) = merger.add_definitions(*file_id, &program_contents[file_id]) {
                 reports.append(&mut errs);
             }
         }
